@@ -261,7 +261,8 @@ ALPHABETS = {
     "blocks": [(0, 0), (1, 0), (2, 0), (3, 0), (3, 1)],
     # (1, 4)/(1, 2): non-conforming records that the encoder alone would accept (an int beyond 32 bits): only a validating
     # writer refuses them - also after the file was reopened for append
-    "append": [(0, 1), (1, 4), (1, 2), (2, 0), (4, 0), (4, 1)],
+    "append": [(0, 1), (1, 1), (2, 0), (4, 0), (4, 1)],
+    "append_validating": [(0, 1), (1, 4), (1, 2), (2, 0), (4, 0)],
     "append2": [(0, 0), (2, 0), (4, 2), (4, 3), (3, 0)],
 }
 
@@ -292,6 +293,8 @@ def harnesses(tier, seed):
     hs = []
     for name in CASES:
         for alpha in ALPHABETS:
+            if alpha == "append_validating" and name in ("empty", "nullint", "nested"):
+                continue  # no record variant that only a validating writer refuses
             n = 4 if th else 3
             h = zlib.crc32((name + alpha).encode()) + seed
             if th and alpha == "writes" and name in ("rec2", "empty"):
@@ -300,11 +303,11 @@ def harnesses(tier, seed):
                 # at length 4 did not finish (25 of 26 harnesses "Not confirmed" in 400 s each)
                 call = "ob_history(C, ops, si, validator, ci, di)"
                 ps = "ops: List[int], si: int, validator: bool, ci: int, di: int"
-            elif alpha == "append" and name not in ("empty", "nullint"):
-                # validation on/off symbolic: a validating writer must still validate after a reopen for append
-                call = f"ob_history(C, ops, si, validator, {h & 3}, {(h >> 2) & 3})"
-                ps = "ops: List[int], si: int, validator: bool"
-            elif name in ("empty", "nullint") and alpha in ("writes", "append"):
+            elif alpha == "append_validating":
+                # a validating writer must still validate after a reopen for append
+                call = f"ob_history(C, ops, si, True, {h & 3}, {(h >> 2) & 3})"
+                ps = "ops: List[int], si: int"
+            elif name in ("empty", "nullint") and alpha == "writes":
                 # zero-byte records: the codec is symbolic as well (an empty payload is the corner case of every
                 # block compressor)
                 call = f"ob_history(C, ops, si, {bool(h & 16)}, ci, {(h >> 2) & 3})"
